@@ -39,8 +39,14 @@ def obsOfOpt {α} (f : PixFmt α) : Option (Img α) → Obs
   | some i => .ok (flatOf f i)
   | none => .err
 
-def chanCount : String → Nat
-  | "gray8" => 1 | "gray1" => 1 | "rgb8" => 3 | "rgba8" => 4 | _ => 0
+def chanCount (t : String) : Nat :=
+  if t.startsWith "gray1" then 1 else
+  match t with
+  | "gray8" => 1 | "rgb8" => 3 | "rgba8" => 4 | _ => 0
+
+/-- gray1[-r][s]: the P4 reader (`r`) / scanline reader (`s`) of the tree under test mirror the bits (proposed fix) instead of swapping half bytes -/
+def monoReaderFixed (t : String) : Bool := t = "gray1-r" ∨ t = "gray1-rs"
+def monoScanFixed (t : String) : Bool := t = "gray1-s" ∨ t = "gray1-rs"
 
 def initPx : Rgba8 := ⟨0xEE, 0xEE, 0xEE, 0xEE⟩
 
@@ -54,7 +60,8 @@ def readNative (fmt dst : String) (file : Bytes) (s : Settings) : Obs :=
       .err
   | "pnm", "gray8" => obsOfRes gray8 (pnmRead gray8 false false file s)
   | "pnm", "rgb8" => obsOfRes rgb8 (pnmRead rgb8 true false file s)
-  | "pnm", "gray1" => obsOfOpt bit8 (decodePnmMono file s)
+  | "pnm", "gray1" | "pnm", "gray1-s" => obsOfOpt bit8 (decodePnmMono file s)
+  | "pnm", "gray1-r" | "pnm", "gray1-rs" => obsOfOpt bit8 (decodePnmMonoFixed file s)
   | "targa", "rgb8" => obsOfOpt rgb8 (decodeTga bgr8 file s)
   | "targa", "rgba8" => obsOfOpt rgba8 (decodeTga bgra8 file s)
   | _, _ => .err
@@ -135,7 +142,7 @@ def scanAll (fmt dst : String) (file : Bytes) : Obs :=
     | some (info, data) =>
       if info.type = 5 ∨ info.type = 6 then
         .ok ⟨info.width, info.height, (List.range info.height).flatMap fun y => pnmScanRow data info y⟩
-      else if info.type = 4 then obsOfOpt bit8 (decodePnmMono file Settings.full)
+      else if info.type = 4 then obsOfOpt bit8 (if monoScanFixed dst then decodePnmMonoFixed file Settings.full else decodePnmMono file Settings.full)
       else if info.type = 2 ∨ info.type = 1 then obsOfRes gray8 (pnmRead gray8 false true file Settings.full)
       else obsOfRes rgb8 (pnmRead rgb8 true true file Settings.full)
   | _ => .err
@@ -254,7 +261,7 @@ def judge (op obs : String) : String :=
         if canary ≠ some "canary-ok" then fail "write-outside-destination-view"
         else if view ≠ img then fail "read_view-equals-read_image"
         else if (anyT = dst ∧ any ≠ img) then fail "any_image-equals-read_image"
-        else if (anyT = "none" ∧ img ≠ .err ∧ dst ≠ "gray1") then fail "any_image-reads-the-file"
+        else if (anyT = "none" ∧ img ≠ .err ∧ !dst.startsWith "gray1") then fail "any_image-reads-the-file"
         else if (scan ≠ .err ∧ scan ≠ img ∧ img ≠ .err) then fail "scanline-rows-equal-full-read"
         else
           match img, inf with
